@@ -285,46 +285,33 @@ theorem extra_sections_do_not_route (cfg : Cfg) (r : Resp) (u : UpRef) (ns extra
 /-! ## Clause 2 — reject beats the cache -/
 
 /-- **Reject beats cache.** Whatever the cache holds, a message (with or without question) routed to
-`reject` gets the empty answer and no upstream is asked; entries whose base key differs from the
-question's are untouched; and when the canonical name contains no `|`, every cached answer of that
-(name, type) — under every scope — is gone afterwards.  (For a name WITH `|` see
-`reject_keeps_cache_of_names_with_bar`: `dnsCacheBaseKey` cuts at the first `|`.) -/
+`reject` gets the empty answer and no upstream is asked; every cached answer of that (name, type, class) —
+under every scope — is gone afterwards (for every name: since 4e63a53 a `|` of the name is escaped in cache
+keys); entries with another base key are untouched. -/
 theorem reject_beats_cache (cfg : Cfg) (cache : Cache) (dst : Nat) (q? : Option Question) (ans : Upstreams)
     (h : requestSelect cfg (q?.getD noQuestion) = .reject) :
     let q := q?.getD noQuestion
     let o := handle cfg cache dst false q? ans
     o.reply = .rejected ∧ o.trace = [] ∧
-    ((∀ c ∈ canonName q.name, (c != '|') = true) →
-        ∀ sc, o.cache.lookup ⟨canonName q.name, q.qtype, sc, q.qclass⟩ = none) ∧
-    (∀ k : CacheKey, baseKeyOf k ≠ canonName q.name ++ (natDigits q.qtype ++ clsSuffix q.qclass) → o.cache.lookup k = cache.lookup k) := by
+    (∀ sc, o.cache.lookup ⟨cacheName q.name, q.qtype, sc, q.qclass⟩ = none) ∧
+    (∀ k : CacheKey, baseKeyOf k ≠ cacheName q.name ++ (natDigits q.qtype ++ clsSuffix q.qclass) →
+      o.cache.lookup k = cache.lookup k) := by
   simp only [handle, h, Bool.false_eq_true, if_false]
-  exact ⟨trivial, trivial, fun hn sc => lookup_removeFamily_same cache _ _ sc _ hn,
+  exact ⟨trivial, trivial, fun sc => lookup_removeFamily_same cache _ _ sc _ (cacheName_no_bar _),
     fun k hk => lookup_removeFamily_other cache _ _ _ k hk⟩
-
-/-- Code as it is (observation, see design note): for a name that contains `|` (legal on the wire)
-`dnsCacheBaseKey` cuts the cache key inside the name, so the reject path — which still answers empty
-and asks nobody — does NOT remove the question's own cached answers. -/
-theorem reject_keeps_cache_of_names_with_bar (cfg : Cfg) (cache : Cache) (dst : Nat) (q : Question)
-    (ans : Upstreams) (h : requestSelect cfg q = .reject)
-    (hbar : ∃ c ∈ canonName q.name, (c != '|') = false) (sc : Scope) :
-    (handle cfg cache dst false (some q) ans).cache.lookup ⟨canonName q.name, q.qtype, sc, q.qclass⟩ =
-      cache.lookup ⟨canonName q.name, q.qtype, sc, q.qclass⟩ := by
-  have := (reject_beats_cache cfg cache dst (some q) ans h).2.2.2 ⟨canonName q.name, q.qtype, sc, q.qclass⟩
-    (baseKeyOf_bar _ _ sc _ hbar)
-  exact this
 
 -- non-vacuity: the cache holds two answers for the rejected question (two scopes) and one for
 -- another name; the question is rejected, both are gone, the other stays.
 example : requestSelect Ex.cfgRejectAll Ex.qCached = .reject ∧
-    Ex.cacheWithAnswer.lookup ⟨canonName Ex.qCached.name, 1, .asis 1, 1⟩ = some [.a 0x01020304] ∧
-    Ex.cacheWithAnswer.lookup ⟨canonName Ex.qCached.name, 1, .up 0, 1⟩ = some [.a 0x05060708] := by decide
+    Ex.cacheWithAnswer.lookup ⟨cacheName Ex.qCached.name, 1, .asis 1, 1⟩ = some [.a 0x01020304] ∧
+    Ex.cacheWithAnswer.lookup ⟨cacheName Ex.qCached.name, 1, .up 0, 1⟩ = some [.a 0x05060708] := by decide
 example : (handle Ex.cfgRejectAll Ex.cacheWithAnswer 1 false (some Ex.qCached) (fun _ _ => none)).cache =
     [(⟨"other.test.".toList, 1, .asis 1, 1⟩, [.a 0x09090909])] := by decide
 
 /-- A cached answer is served only for questions that are not rejected, without asking anybody. -/
 theorem cache_hit_asks_nobody (cfg : Cfg) (cache : Cache) (dst : Nat) (q : Question) (ans : Upstreams)
     (u : UpRef) (recs : List Rec) (h : requestSelect cfg q = .to u)
-    (hhit : cache.lookup ⟨canonName q.name, q.qtype, scopeOf dst u, q.qclass⟩ = some recs) :
+    (hhit : cache.lookup ⟨cacheName q.name, q.qtype, scopeOf dst u, q.qclass⟩ = some recs) :
     let o := handle cfg cache dst false (some q) ans
     o.reply = .answers recs true ∧ o.trace = [] ∧ o.cache = cache := by
   simp [handle, h, hhit]
@@ -335,7 +322,7 @@ theorem cache_hit_asks_nobody (cfg : Cfg) (cache : Cache) (dst : Nat) (q : Quest
 upstream queries are exactly those of `dialSend` started there. -/
 theorem question_goes_to_selected_upstream (cfg : Cfg) (cache : Cache) (dst : Nat) (q : Question)
     (ans : Upstreams) (u : UpRef) (h : requestSelect cfg q = .to u)
-    (hmiss : cache.lookup ⟨canonName q.name, q.qtype, scopeOf dst u, q.qclass⟩ = none) (hpos : 0 < cfg.maxDepth) :
+    (hmiss : cache.lookup ⟨cacheName q.name, q.qtype, scopeOf dst u, q.qclass⟩ = none) (hpos : 0 < cfg.maxDepth) :
     (handle cfg cache dst false (some q) ans).trace = (dialSend cfg (some q) ans 0 u).1 ∧
     (dialSend cfg (some q) ans 0 u).1.head? = some u := by
   constructor
@@ -389,11 +376,11 @@ theorem reject_empties_answer_section_only (cfg : Cfg) (q? : Option Question) (a
 the ORIGINAL request route (also when another upstream finally answered, also when emptied). -/
 theorem final_answer_is_relayed_and_cached (cfg : Cfg) (cache : Cache) (dst : Nat) (q : Question)
     (ans : Upstreams) (u : UpRef) (t : List UpRef) (r : Resp) (h : requestSelect cfg q = .to u)
-    (hmiss : cache.lookup ⟨canonName q.name, q.qtype, scopeOf dst u, q.qclass⟩ = none)
+    (hmiss : cache.lookup ⟨cacheName q.name, q.qtype, scopeOf dst u, q.qclass⟩ = none)
     (hd : dialSend cfg (some q) ans 0 u = (t, .ok r)) :
     let o := handle cfg cache dst false (some q) ans
     o.reply = .answers r.recs r.rcodeOk ∧
-    (r.cacheable = true → o.cache.lookup ⟨canonName q.name, q.qtype, scopeOf dst u, q.qclass⟩ = some r.recs) ∧
+    (r.cacheable = true → o.cache.lookup ⟨cacheName q.name, q.qtype, scopeOf dst u, q.qclass⟩ = some r.recs) ∧
     (r.cacheable = false → o.cache = cache) := by
   simp only [handle, Option.getD_some, h, hmiss, hd, Bool.false_eq_true, if_false]
   refine ⟨trivial, ?_, ?_⟩
@@ -415,11 +402,10 @@ theorem question_follows_first_matching_request_rule (cfg : Cfg) (rs : List SrcR
     let d := decodeReq cfg.dead (firstMatchSrc (reqEnv q) (splitRequestRules rs) fb)
     let o := handle cfg cache dst false (some q) ans
     (d = .reject → o.reply = .rejected ∧ o.trace = [] ∧
-        ((∀ c ∈ canonName q.name, (c != '|') = true) →
-          ∀ sc, o.cache.lookup ⟨canonName q.name, q.qtype, sc, q.qclass⟩ = none)) ∧
-    (∀ u, d = .to u → cache.lookup ⟨canonName q.name, q.qtype, scopeOf dst u, q.qclass⟩ = none →
+        ∀ sc, o.cache.lookup ⟨cacheName q.name, q.qtype, sc, q.qclass⟩ = none) ∧
+    (∀ u, d = .to u → cache.lookup ⟨cacheName q.name, q.qtype, scopeOf dst u, q.qclass⟩ = none →
         o.trace.head? = some u) ∧
-    (∀ u recs, d = .to u → cache.lookup ⟨canonName q.name, q.qtype, scopeOf dst u, q.qclass⟩ = some recs →
+    (∀ u recs, d = .to u → cache.lookup ⟨cacheName q.name, q.qtype, scopeOf dst u, q.qclass⟩ = some recs →
         o.trace = [] ∧ o.reply = .answers recs true) := by
   have hsel := request_select_is_first_match cfg rs fb q hc hup hn
   refine ⟨?_, ?_, ?_⟩
@@ -482,7 +468,7 @@ cache of class IN**: its cache key carries the class, and whatever the upstreams
 but not stored (also when a response rule empties or re-asks it). -/
 theorem non_in_question_is_never_cached (cfg : Cfg) (cache : Cache) (dst : Nat) (q : Question) (ans : Upstreams)
     (u : UpRef) (hcls : q.qclass ≠ 1) (h : requestSelect cfg q = .to u)
-    (hmiss : cache.lookup ⟨canonName q.name, q.qtype, scopeOf dst u, q.qclass⟩ = none) :
+    (hmiss : cache.lookup ⟨cacheName q.name, q.qtype, scopeOf dst u, q.qclass⟩ = none) :
     (handle cfg cache dst false (some q) ans).cache = cache := by
   simp only [handle, Option.getD_some, h, hmiss, Bool.false_eq_true, if_false]
   cases hd : dialSend cfg (some q) ans 0 u with
@@ -518,8 +504,8 @@ carries it.) -/
 theorem stale_hit_refreshes_from_routed_upstream (cfg : Cfg) (cache : Cache) (stale : List CacheKey)
     (dst : Nat) (q : Question) (ans : Upstreams) (u : UpRef) (recs : List Rec)
     (h : requestSelect cfg q = .to u)
-    (hhit : cache.lookup ⟨canonName q.name, q.qtype, scopeOf dst u, q.qclass⟩ = some recs)
-    (hst : stale.contains ⟨canonName q.name, q.qtype, scopeOf dst u, q.qclass⟩ = true) :
+    (hhit : cache.lookup ⟨cacheName q.name, q.qtype, scopeOf dst u, q.qclass⟩ = some recs)
+    (hst : stale.contains ⟨cacheName q.name, q.qtype, scopeOf dst u, q.qclass⟩ = true) :
     let o := handleOpt cfg cache stale dst false (some q) ans
     o.reply = .answers recs true ∧ o.trace = (dialSend cfg (some q) ans 0 u).1 := by
   simp only [handleOpt, Option.getD_some, h, hhit, hst, Bool.false_eq_true, if_false, Option.isSome_some,
@@ -559,7 +545,7 @@ theorem reask_bounded (cfg : Cfg) (cache : Cache) (dst : Nat) (isResp : Bool) (q
     | reject => simp
     | to u =>
       simp only
-      cases cache.lookup ⟨canonName q.name, q.qtype, scopeOf dst u, q.qclass⟩ with
+      cases cache.lookup ⟨cacheName q.name, q.qtype, scopeOf dst u, q.qclass⟩ with
       | some recs => simp
       | none =>
         have := hb u
@@ -583,7 +569,7 @@ theorem reask_bounded_optimistic (cfg : Cfg) (cache : Cache) (stale : List Cache
     | to u =>
       simp only
       have := hb u
-      cases cache.lookup ⟨canonName q.name, q.qtype, scopeOf dst u, q.qclass⟩ with
+      cases cache.lookup ⟨cacheName q.name, q.qtype, scopeOf dst u, q.qclass⟩ with
       | some recs =>
         simp only
         split
